@@ -12,7 +12,7 @@ from .. import e2e
 from ..common import Hang, Rng, hx, unhx, watchdog
 from ..runner import Check
 from ..translate import c06_tables
-from . import c06_dedupe
+from . import c06_dedupe, c06_dirs
 
 # ------------------------------------------------------------------ pools (names that collide after normalisation)
 NAMES = [
@@ -1421,6 +1421,9 @@ def search_embed_disagreements(ck: Check) -> None:
     c06_dedupe.search(ck)
     if ck.failures:
         return
+    c06_dirs.search(ck)
+    if ck.failures:
+        return
     campaign_multidoc(ck, 300, exhaustive=True)
     if ck.failures:
         return
@@ -1433,7 +1436,10 @@ def known_findings(ck: Check) -> None:
         probe = Check(ck.prop, ck.tier)
         probe.findings = []
         camp = probe.campaign("witness")
-        e2e_oracle(probe, camp, f["witness"])
+        if f["witness"].get("dirs"):
+            c06_dirs.dirs_oracle(probe, camp, f["witness"])
+        else:
+            e2e_oracle(probe, camp, f["witness"])
         if probe.failures:
             ck.known(f["id"], f["what"])
 
@@ -1473,6 +1479,8 @@ def run(ck: Check) -> None:
     c06_dedupe.campaign_collide(ck, 80 if quick else 800, 3 if quick else 4)
     c06_dedupe.campaign_pass(ck, 300 if quick else 3000, 4 if quick else 5)
     campaign_multidoc(ck, 200 if quick else 1500, exhaustive=not quick)
+    c06_dirs.campaign_dirs(ck, 120 if quick else 1500)
+    c06_dirs.campaign_basepath(ck, 300 if quick else 3000)
     if not quick:
         campaign_e2e_exhaustive(ck, CORE_KEYS, 4, "")
     ck.search_hooks.append(search_embed_disagreements)
@@ -1491,6 +1499,21 @@ def replay(ck: Check, path: str) -> int:
         if not ck.failures and not ck.disagreements:
             print("replay: model and implementation agree and the oracle does not fail on this input")
         return 1 if ck.failures or ck.disagreements else 0
+    if inp.get("dirs"):
+        camp = ck.campaign("replay")
+        c06_dirs.dirs_oracle(ck, camp, inp)
+        for f in ck.failures:
+            print("REPLAY-FAILS:", json.dumps(f.classification), f.observed[:300])
+        if not ck.failures:
+            print("replay: the oracle does not fail on this input" + (" (matches a known finding)" if ck.known_hits else ""))
+        return 1 if ck.failures else 0
+    if "ctx_ops" in inp:
+        c06_dirs.campaign_basepath(ck, 0, " [replay]", cases=[inp["ctx_ops"]])
+        for d in ck.disagreements:
+            print("REPLAY-DISAGREES:", d.campaign, "model=", str(d.model)[:300], "impl=", str(d.impl)[:300])
+        if not ck.disagreements:
+            print("replay: model and implementation agree on this input")
+        return 1 if ck.disagreements else 0
     if inp.get("collide"):
         camp = ck.campaign("replay")
         c06_dedupe.collide_oracle(ck, camp, inp)
